@@ -65,5 +65,16 @@ PROPS['C19'] = Prop(
     outside='wrap placed further than W additions from the start of the history; copies/moves/swaps across the wrap are exercised in C10 (counters far apart)',
     assumptions=['the counter is positioned by writing the private member currentCounter through the test-style private->public include (no repo hook)'])
 
+_SR_BOUNDS = ('ScopedRemover<%s>: 2 targets, <=3 removers, one of 3 initial configurations, then K=%d steps from add-through-remover (append/prepend/insert) / add directly / '
+              'remove slot through remover / reset / re-target / move-construct / move-assign / swap / destroy / remove directly; all removers destroyed at the end in a chosen order')
+PROPS['C15'] = Prop(
+    quick=[Run('scoped_cl_k2', 'scoped.cpp', {'KK': 2, 'TK': 0}, covers=8, optional_covers=(7,), bounds=_SR_BOUNDS % ('CallbackList', 2)),
+           Run('scoped_disp_k2', 'scoped.cpp', {'KK': 2, 'TK': 1}, covers=8, optional_covers=(0, 1, 2, 3, 4, 5, 6, 7), bounds=_SR_BOUNDS % ('EventDispatcher', 2)),
+           Run('scoped_queue_k2', 'scoped.cpp', {'KK': 2, 'TK': 2}, covers=8, optional_covers=(0, 1, 2, 3, 4, 5, 6, 7), bounds=_SR_BOUNDS % ('EventQueue', 2))],
+    thorough=[Run('scoped_cl_k3', 'scoped.cpp', {'KK': 3, 'TK': 0}, covers=8, budget_s=1700, bounds=_SR_BOUNDS % ('CallbackList', 3)),
+              Run('scoped_disp_k3', 'scoped.cpp', {'KK': 3, 'TK': 1}, covers=8, budget_s=1700, bounds=_SR_BOUNDS % ('EventDispatcher', 3)),
+              Run('scoped_queue_k3', 'scoped.cpp', {'KK': 3, 'TK': 2}, covers=8, budget_s=1700, bounds=_SR_BOUNDS % ('EventQueue', 3))],
+    outside='more than K steps after the initial configuration; more than 3 removers / 2 targets; exceptions inside remover operations (C09); threads')
+
 HOOK_COMMITS = []
 EBMC_PROPS = []
